@@ -106,6 +106,25 @@ Theorem C02_busy_only_on_upgrade mine others op :
 Proof. exact (busy_only_on_upgrade mine others op). Qed.
 Print Assumptions C02_busy_only_on_upgrade.
 
+(* outside the fairness assumption (`runx`: entry 100 + tid = "the busy timeout of call tid expires on this
+   blocked attempt"): the 'pending writer' - call 0 holds SHARED between its lookup and the commit, call 1 sits
+   in COMMIT with PENDING, the late starter 2 cannot get SHARED for its integrity check and times out.  If the
+   handler of the integrity check does not re-raise a busy error (seeded change C02/m5: it tests for
+   SQLITE_LOCKED), the time-out is taken for corruption and the database the other two have open is removed;
+   with the guard of /repo HEAD nothing is removed and all three calls end (2 by the uncached fall-back) *)
+Definition pending_writer : list nat :=
+  [0;0;0] ++ repeat 1 7 ++ [2; 102] ++ repeat 2 4 ++ repeat 0 3 ++ repeat 1 3 ++ repeat 2 30.
+Definition pw_init : cfg :=
+  init_cfg prog_head (Some (Db TGood TGood true [(0, 0)]))
+           [Par 0 false false true 30; Par 1 false false true 30; Par 2 true false true 30].
+Theorem C02_timeout_guard :
+  c_viol (fst (runx false pending_writer pw_init)) = true /\
+  c_viol (fst (runx true pending_writer pw_init)) = false /\
+  map t_st (c_thrs (fst (runx true pending_writer pw_init))) = [Fin; Fin; Fin] /\
+  same_set (rows_of (fst (runx true pending_writer pw_init))) [0; 1] = true.
+Proof. vm_compute. auto. Qed.
+Print Assumptions C02_timeout_guard.
+
 (* mutual exclusion lifted to whole configurations: for ANY program, any initial file (also garbage),
    any calls and any schedule, at most one connection per database file holds RESERVED or more *)
 Theorem C02_mutex (p : prog) (d0 : option db) (pars : list params) (sched : list nat) :
